@@ -603,6 +603,28 @@ func (c *octx) monotoneInKey(v ssa.Value, l ssau.RangeLoop, d int) bool {
 		return true
 	}
 	switch x := v.(type) {
+	case *ssa.Call:
+		if n := ssau.CallName(x); n == "math.Min" || n == "math.Max" || n == "builtin.min" || n == "builtin.max" {
+			nv := 0
+			for _, a := range x.Common().Args {
+				if _, isC := ssau.ConstFloat(a); isC {
+					continue
+				}
+				nv++
+				if !c.monotoneInKey(a, l, d+1) {
+					return false
+				}
+			}
+			return nv > 0
+		}
+		// f(key-expression) with f monotone in its only numeric parameter
+		cal := x.Common().StaticCallee()
+		if cal != nil && c.e.IsRepo(cal) && cal.Blocks != nil && len(x.Common().Args) == 1 && len(cal.Params) == 1 {
+			if c.monotoneInKey(x.Common().Args[0], l, d+1) && c.monotoneFn(cal, d+1) {
+				return true
+			}
+		}
+		return false
 	case *ssa.Convert:
 		return c.monotoneInKey(x.X, l, d+1)
 	case *ssa.BinOp:
@@ -812,4 +834,127 @@ func (c *octx) indexwiseMap(l ssau.RangeLoop, st ostate) ssa.Value {
 		return out
 	}
 	return nil
+}
+
+// monotoneFn: every return of fn is a monotone non-decreasing function of its
+// single parameter (same arithmetic/clamp rules as monotoneInKey).
+func (c *octx) monotoneFn(fn *ssa.Function, d int) bool {
+	if d > 12 {
+		return false
+	}
+	p := fn.Params[0]
+	sub := &octx{e: c.e, cfg: c.cfg, fn: fn}
+	var mono func(v ssa.Value, d int) bool
+	mono = func(v ssa.Value, d int) bool {
+		if d > 14 {
+			return false
+		}
+		if v == ssa.Value(p) {
+			return true
+		}
+		switch x := v.(type) {
+		case *ssa.Call:
+			if n := ssau.CallName(x); n == "math.Min" || n == "math.Max" || n == "builtin.min" || n == "builtin.max" {
+				nv := 0
+				for _, a := range x.Common().Args {
+					if _, isC := ssau.ConstFloat(a); isC {
+						continue
+					}
+					nv++
+					if !mono(a, d+1) {
+						return false
+					}
+				}
+				return nv > 0
+			}
+			return false
+		case *ssa.Convert:
+			return mono(x.X, d+1)
+		case *ssa.BinOp:
+			ky, cy := ssau.ConstFloat(x.Y)
+			kx, cx := ssau.ConstFloat(x.X)
+			switch x.Op {
+			case token.ADD:
+				if cy {
+					return mono(x.X, d+1)
+				}
+				if cx {
+					return mono(x.Y, d+1)
+				}
+			case token.SUB:
+				if cy {
+					return mono(x.X, d+1)
+				}
+			case token.MUL:
+				if cy && ky > 0 {
+					return mono(x.X, d+1)
+				}
+				if cx && kx > 0 {
+					return mono(x.Y, d+1)
+				}
+			case token.QUO:
+				if cy && ky > 0 {
+					return mono(x.X, d+1)
+				}
+			}
+		case *ssa.Phi:
+			n := 0
+			for i, e := range x.Edges {
+				if k, isC := ssau.ConstFloat(e); isC {
+					pred := x.Block().Preds[i]
+					good := false
+					for _, pp := range pred.Preds {
+						iff, ok := pp.Instrs[len(pp.Instrs)-1].(*ssa.If)
+						if !ok || pp.Succs[0] != pred {
+							continue
+						}
+						_, a, bb, okc := ssau.CondOf(iff.Cond)
+						if kb, isK := ssau.ConstFloat(bb); okc && isK && kb == k && mono(a, d+1) {
+							good = true
+						}
+					}
+					if !good {
+						return false
+					}
+					continue
+				}
+				n++
+				if !mono(e, d+1) {
+					return false
+				}
+			}
+			return n > 0
+		}
+		return false
+	}
+	_ = sub
+	rets := ssau.ReturnsOf(fn)
+	if len(rets) == 0 {
+		return false
+	}
+	for _, ret := range rets {
+		v := ret.Results[0]
+		// early-return clamps: `if w > k { return k }` — a constant return under a comparison of a monotone value with that constant
+		if k, isC := ssau.ConstFloat(v); isC {
+			good := false
+			for _, pp := range ret.Block().Preds {
+				iff, ok := pp.Instrs[len(pp.Instrs)-1].(*ssa.If)
+				if !ok {
+					continue
+				}
+				_, a, bb, okc := ssau.CondOf(iff.Cond)
+				if kb, isK := ssau.ConstFloat(bb); okc && isK && kb == k && mono(a, 0) {
+					good = true
+				}
+			}
+			if !good {
+				return false
+			}
+			continue
+		}
+		if !mono(v, 0) {
+			return false
+		}
+	}
+	return true
 }
